@@ -12,7 +12,8 @@ A `Heap` is the memory pool of one `JsonContext`: cell `i` is the `i`-th `JsonVa
   **as the code keeps it** (`real_list_append` increments it),
 * dicts: the crit-bit tree of `usual/cbtree.c` (the model of property C06, `Usual.C06.insert`
   / `walk`; an entry is the key string and the id of the value its key node points to), and
-  `u.v_size` as `real_dict_add_key` keeps it.  `f2fixed = false` is the code *before* repair
+  `u.v_size` as `real_dict_add_key` keeps it.  `cyc` = the proposed repair F38 (cycle check in the two attaching calls) is present.
+  `f2fixed = false` is the code *before* repair
   F2 (`v_size++` before `cbtree_insert`), `true` the repaired code (after a successful insert).
 
 `step` = one public builder call (`Op`), returning the new heap and what the call returned.
@@ -42,6 +43,9 @@ deriving Repr
 
 structure Heap where
   cells : List Cell := []
+  /-- `c_parent` of the containers that have been attached: (container id, id of the container
+  it sits in); the newest entry for an id is the valid one -/
+  par : List (Nat × Nat) := []
 deriving Repr
 
 /-- a scalar given inline to the convenience calls `json_list_append_*` / `json_dict_put_*` -/
@@ -80,9 +84,9 @@ def get (h : Heap) (p : Option Nat) : Option Cell :=
 
 /-- `mk_value(ctx, type, extra, false)`: a fresh unattached cell -/
 def alloc (h : Heap) (n : Node) : Heap × Nat :=
-  ({ cells := h.cells ++ [⟨n, false⟩] }, h.cells.length)
+  ({ h with cells := h.cells ++ [⟨n, false⟩] }, h.cells.length)
 
-def setCell (h : Heap) (i : Nat) (c : Cell) : Heap := { cells := h.cells.set i c }
+def setCell (h : Heap) (i : Nat) (c : Cell) : Heap := { h with cells := h.cells.set i c }
 
 /-- `json_new_*` for scalars: the refusals happen before `mk_value` -/
 def newScalar (h : Heap) : Scalar → Heap × Option Nat
@@ -116,31 +120,67 @@ def setDict (h : Heap) (di : Nat) (t : Option T) (n : Nat) : Heap :=
   | some ⟨.dict _ _, da⟩ => h.setCell di ⟨.dict t n, da⟩
   | _ => h
 
-/-- `json_list_append` -/
-def listAppend (h : Heap) (l v : Option Nat) : Heap × Bool :=
+/-- list or dict (`get_container(jv) != NULL`) -/
+def isContainer (h : Heap) (i : Nat) : Bool :=
+  match h.cells[i]? with
+  | some ⟨.list _ _, _⟩ => true
+  | some ⟨.dict _ _, _⟩ => true
+  | _ => false
+
+/-- `set_parent(val, parent)`: only containers have a `c_parent` field -/
+def setParent (h : Heap) (vi li : Nat) : Heap :=
+  if h.isContainer vi then { h with par := (vi, li) :: h.par } else h
+
+/-- `get_container(jv)->c_parent` (`none` = NULL) -/
+def parentOf (h : Heap) (i : Nat) : Option Nat :=
+  match h.par.find? (fun p => p.1 == i) with
+  | some p => some p.2
+  | none => none
+
+/-- `is_self_or_ancestor(anc, jv)` of repair F38: walk the `c_parent` chain from `jv`.  The C
+loop has no bound; the model's `fuel` (cells + 1) is never exhausted on a reachable heap, where
+the chain visits distinct cells — should it be, the model refuses (`true`). -/
+def selfOrAncestor (h : Heap) (anc : Nat) : Nat → Nat → Bool
+  | 0, _ => true
+  | fuel + 1, jv =>
+    if jv == anc then true
+    else match h.parentOf jv with
+      | none => false
+      | some p => selfOrAncestor h anc fuel p
+
+/-- `json_list_append`; `cyc` = repair F38 present (refuse a container that is the list itself
+or one of the containers the list sits in) -/
+def listAppend (cyc : Bool) (h : Heap) (l v : Option Nat) : Heap × Bool :=
   match v, h.get v with
   | some vi, some vc =>                                   -- if (!val) return false
     match l, h.get l with
     | some li, some ⟨.list _ _, _⟩ =>                     -- has_type(list, JSON_LIST)
       if vc.attached then (h, false)                      -- !is_unattached(val)
-      else ((h.markAttached vi).pushElem li vi, true)     -- set_next(val, NULL); real_list_append
+      else if cyc && h.selfOrAncestor vi (h.cells.length + 1) li then (h, false)
+      else                                                -- set_parent; set_next(val, NULL); real_list_append
+        (((h.markAttached vi).setParent vi li).pushElem li vi, true)
     | _, _ => (h, false)
   | _, _ => (h, false)
 
+/-- `JSON_MAX_KEY`: `real_dict_add_key` refuses longer names ("Too large key") -/
+def jsonMaxKey : Nat := 1024 * 1024
+
 /-- `json_dict_put` (with `real_dict_add_key`); the key node itself is not given an id -/
-def dictPut (f2fixed : Bool) (h : Heap) (d : Option Nat) (k : Bytes) (v : Option Nat) : Heap × Bool :=
+def dictPut (f2fixed cyc : Bool) (h : Heap) (d : Option Nat) (k : Bytes) (v : Option Nat) : Heap × Bool :=
   match v, h.get v with
   | some vi, some vc =>
     match d, h.get d with
     | some di, some ⟨.dict t n, _⟩ =>
       if vc.attached then (h, false)
+      else if cyc && h.selfOrAncestor vi (h.cells.length + 1) di then (h, false)
       else if !validString k then (h, false)              -- json_new_string(key) == NULL
+      else if k.length > jsonMaxKey then (h, false)       -- "Too large key"
       else
         match Usual.C06.insert t ⟨k, vi⟩ with
         | none =>                                         -- "Key insertion failed"
           (if f2fixed then (h, false) else (h.setDict di t (n + 1), false))
         | some t' =>                                      -- set_next(kjv, val); set_next(val, NULL)
-          ((h.markAttached vi).setDict di t' (n + 1), true)
+          (((h.markAttached vi).setParent vi di).setDict di t' (n + 1), true)
     | _, _ => (h, false)
   | _, _ => (h, false)
 
@@ -152,22 +192,22 @@ def hasContext (h : Heap) (i : Nat) : Bool :=
   | some ⟨.dict _ _, _⟩ => true
   | _ => false
 
-def step (f2fixed : Bool) (h : Heap) : Op → Heap × Ret
+def step (f2fixed cyc : Bool) (h : Heap) : Op → Heap × Ret
   | .new s => let (h', p) := h.newScalar s; (h', .ptr p)
   | .newList => let (h', i) := h.alloc (.list [] 0); (h', .ptr (some i))
   | .newDict => let (h', i) := h.alloc (.dict none 0); (h', .ptr (some i))
-  | .append l v => let (h', b) := h.listAppend l v; (h', .flag b)
+  | .append l v => let (h', b) := h.listAppend cyc l v; (h', .flag b)
   | .appendS l s =>
     if h.hasContext l then
       let (h1, p) := h.newScalar s
-      let (h2, b) := h1.listAppend (some l) p
+      let (h2, b) := h1.listAppend cyc (some l) p
       (h2, .flag b)
     else (h, .flag false)
-  | .put d k v => let (h', b) := h.dictPut f2fixed d k v; (h', .flag b)
+  | .put d k v => let (h', b) := h.dictPut f2fixed cyc d k v; (h', .flag b)
   | .putS d k s =>
     if h.hasContext d then
       let (h1, p) := h.newScalar s
-      let (h2, b) := h1.dictPut f2fixed (some d) k p
+      let (h2, b) := h1.dictPut f2fixed cyc (some d) k p
       (h2, .flag b)
     else (h, .flag false)
   | .seal v =>
@@ -176,11 +216,11 @@ def step (f2fixed : Bool) (h : Heap) : Op → Heap × Ret
     | _, _ => (h, .flag false)
 
 /-- run a history from a heap; returns the final heap and all return values -/
-def run (f2fixed : Bool) (h : Heap) : List Op → Heap × List Ret
+def run (f2fixed cyc : Bool) (h : Heap) : List Op → Heap × List Ret
   | [] => (h, [])
   | op :: ops =>
-    let (h1, r) := h.step f2fixed op
-    let (h2, rs) := h1.run f2fixed ops
+    let (h1, r) := h.step f2fixed cyc op
+    let (h2, rs) := h1.run f2fixed cyc ops
     (h2, r :: rs)
 
 /-! ## observers -/
